@@ -44,6 +44,10 @@ CLAIMED["C13"] = ("72-octet frames with symbolic sequence number, colour nibble,
                   "type fields split over their defined codes: the raw decoder and the GENERATED kaitai parser (run on the symbolic frame through a stream stand-in) give equal "
                   "objects and bursts, ids/colour equal the encoded 24-bit/4-bit values, and as_ipsc_bytes of either reproduces the 72 octets. quick: sync, wake-up and two voice "
                   "slot types; data slot types with library-assembled payloads are exercised under C01/C07.", "6/C13")
+CLAIMED["C20"] = ("One operation (17 kinds, arguments from the pools, values symbolic) from EVERY valid state over 3 addresses (two sharing an IP) and 2 dynamic keys: no failure, "
+                  "same object for the same address, growth only on an auto-creating look-up of an unseen address, patches change exactly the named fields/attrs of the matched "
+                  "record (frame condition on every other record), representation invariant preserved (so the step composes to histories of any length); plus all histories "
+                  "of depth 2 (3 in thorough) from the empty storage.", "6/C20")
 NOT_YET = {}
 props = [json.loads(l) for l in open(os.path.join(V, "properties.jsonl"))]
 checks = []
